@@ -74,10 +74,10 @@ func PrepareCumulatedWeightsMap(
 		for crit, v := range a.Criteria {
 			w, ok := weights[crit]
 			if !ok {
-				weights[crit] = mapper(crit, v)
-			} else {
-				weights[crit] = w + mapper(crit, v)
+				// a value for a criterion that is not declared takes no part in the decision
+				continue
 			}
+			weights[crit] = w + mapper(crit, v)
 		}
 	}
 	return &weights
